@@ -599,6 +599,9 @@ func zero(t types.Type) value {
 		}
 		return a
 	case *types.Named:
+		if o := t.Obj(); o.Pkg() != nil && o.Pkg().Path() == "reflect" && o.Name() == "Value" {
+			return rvalue{} // reflect.Value is modelled, not interpreted
+		}
 		return zero(t.Underlying())
 	case *types.Alias:
 		return zero(types.Unalias(t))
